@@ -29,15 +29,18 @@ const STACK: (u64, u64) = (0x7ffd_1000_0000, 0x2_1000);
 struct Layout {
     maps: Vec<(u64, u64, bool)>, // start, size, executable
     stack: u8,                   // 0 = rw- stack mapping, 1 = rwx stack mapping, 2 = SP in no mapping
+    /// 0 = list in ascending address order; k > 0 = entries 0 and k swapped, the way the dumper
+    /// moves the mapping holding the program's entry point to the front of its list
+    front: u8,
 }
 
 impl Layout {
     fn to_json(&self) -> Value {
-        json!({"maps": self.maps.iter().map(|(s, z, x)| json!([s, z, x])).collect::<Vec<_>>(), "stack": self.stack})
+        json!({"maps": self.maps.iter().map(|(s, z, x)| json!([s, z, x])).collect::<Vec<_>>(), "stack": self.stack, "front": self.front})
     }
     fn from_json(v: &Value) -> Option<Layout> {
         let maps = v.get("maps")?.as_array()?.iter().map(|m| Some((m.get(0)?.as_u64()?, m.get(1)?.as_u64()?, m.get(2)?.as_bool()?))).collect::<Option<Vec<_>>>()?;
-        Some(Layout { maps, stack: v.get("stack")?.as_u64()? as u8 })
+        Some(Layout { maps, stack: v.get("stack")?.as_u64()? as u8, front: v.get("front").and_then(|f| f.as_u64()).unwrap_or(0) as u8 })
     }
     fn mapping_infos(&self) -> Vec<MappingInfo> {
         let mut v: Vec<MappingInfo> = self.maps.iter().map(|(s, z, x)| mapping(*s as usize, *z as usize, perms(true, false, *x), Some("/lib/x.so"))).collect();
@@ -45,6 +48,9 @@ impl Layout {
             v.push(mapping(STACK.0 as usize, STACK.1 as usize, perms(true, true, self.stack == 1), Some("[stack]")));
         }
         v.sort_by_key(|m| m.start_address);
+        if self.front > 0 && (self.front as usize) < v.len() {
+            v.swap(0, self.front as usize);
+        }
         v
     }
     fn stack_range(&self) -> Option<(u64, u64)> {
@@ -80,12 +86,15 @@ fn layouts(max_k: usize) -> Vec<Layout> {
         for xmask in 0u32..(1 << k) {
             let maps: Vec<(u64, u64, bool)> = idx.iter().enumerate().map(|(j, i)| (CANDS[*i].0, CANDS[*i].1, xmask & (1 << j) != 0)).collect();
             for stack in 0..3u8 {
-                out.push(Layout { maps: maps.clone(), stack });
+                let len = maps.len() + if stack < 2 { 1 } else { 0 };
+                for front in 0..len.max(1) as u8 {
+                    out.push(Layout { maps: maps.clone(), stack, front });
+                }
             }
         }
     }
     // simplest first
-    out.sort_by_key(|l| (l.maps.len(), l.maps.iter().filter(|m| m.2).count(), l.stack));
+    out.sort_by_key(|l| (l.maps.len(), l.front, l.maps.iter().filter(|m| m.2).count(), l.stack));
     out
 }
 
@@ -277,7 +286,7 @@ fn explore_layout(d: &mut minidump_writer::ptrace_dumper::PtraceDumper, l: &Layo
 fn explore_lengths(d: &mut minidump_writer::ptrace_dumper::PtraceDumper, acc: &mut Acc) {
     // every (sp offset 0..=24) x (region length 0..=48): includes lengths shorter than the offset
     // and every partial tail 1..7
-    for l in layouts(1).into_iter().filter(|l| l.maps.len() == 1 && l.maps[0].0 == CANDS[0].0) {
+    for l in layouts(1).into_iter().filter(|l| l.maps.len() == 1 && l.maps[0].0 == CANDS[0].0 && l.front == 0) {
         d.mappings = l.mapping_infos();
         let words = [CANDS[0].0 + 8, (-1i64) as u64, 0x1234_5678_9abc_def0, STACK.0 + 0x3000, 4096, SENTINEL];
         let mut content = Vec::new();
@@ -310,7 +319,7 @@ fn explore_lengths(d: &mut minidump_writer::ptrace_dumper::PtraceDumper, acc: &m
 }
 
 pub fn run(ctx: &Ctx, rep: &mut Report) {
-    rep.rule = "LAT: mapping layouts (subsets of 8 candidate mappings placed around 2 MiB bucket / 4 GiB bitmap-wrap boundaries x executable flags x 3 stack variants) x ordered word sequences (singles over the full per-layout alphabet, pairs, triples over a 12-letter core) x stack-pointer offsets; plus every (sp offset 0..24, length 0..48). nontrivial = calls whose words include both a qualifying and a non-qualifying word, or whose length is shorter than the rounded offset".into();
+    rep.rule = "LAT: mapping layouts (subsets of 8 candidate mappings placed around 2 MiB bucket / 4 GiB bitmap-wrap boundaries x executable flags x 3 stack variants x list order {ascending, entry k swapped to the front}) x ordered word sequences (singles over the full per-layout alphabet, pairs, triples over a 12-letter core) x stack-pointer offsets; plus every (sp offset 0..24, length 0..48). nontrivial = calls whose words include both a qualifying and a non-qualifying word, or whose length is shorter than the rounded offset".into();
     rep.assume("words outside the per-layout boundary alphabet are not explored; 64-bit only");
     if let Some(case) = &ctx.replay {
         let t = IdleTarget::spawn();
